@@ -41,7 +41,12 @@ def meta_ok(p):
     from .. import ir as I
     if p.get("shadow") or p.get("decl", {}).get("var"):
         return False
-    return not any(s["s"] == "for" and s["t"]["t"] != "name" for s in I.walk(p["body"]))
+    return True
+
+
+def tuple_loop(p):
+    from .. import ir as I
+    return any(s["s"] == "for" and s["t"]["t"] != "name" for s in I.walk(p["body"]))
 
 
 def run_static(out, tier, seed):
@@ -56,6 +61,7 @@ def run_static(out, tier, seed):
     progs = [p for p in SK.family_f1(quick=(tier == "quick")) + SK.family_f6() + [SK.random_program(rng, 9000 + i) for i in range(nrand)] if meta_ok(p)]
     opts = {"maxiter": 2, "maxraise": 1, "kinds": ["tuple"], "maxpaths": 8 if tier == "quick" else 40, "seed": seed,
             "variants": ["meta", "meta_single"], "gen_drive": True, "with_prog": True}
+    tuple_pids = {p["id"] for p in progs if tuple_loop(p)}
     work = core.scratch("c06s-")
     traces = PC.run_jobs(progs, opts, work)
     cases, skipped = [], 0
@@ -64,6 +70,8 @@ def run_static(out, tier, seed):
             if r["act_err"] or r["log"] != [e for e in t["ref"]["log"] if e[0] != "bind"] or r["result"] != t["ref"]["result"]:
                 skipped += 1          # not transparent on this path (C01 judges that); the meta stream is not comparable
                 continue
+            if r["only"] == "" and t["pid"] in tuple_pids:
+                continue              # the loop events of the several variables of one tuple target come in no specified order
             cases.append({"id": t["id"] * 100 + ri, "form": t["form"], "ctx": t["ctx"], "prog": t["prog"], "reflog": t["ref"]["log"],
                           "merged": r["streams"][0], "result": t["ref"]["result"], "script": t["script"], "pid": t["pid"],
                           "only": r["only"]})
